@@ -57,12 +57,12 @@ Ltac not_char H := apply N.eqb_neq; intro; subst; vm_compute in H; discriminate.
 
 Lemma idchar_not_special : forall c, is_idchar c = true ->
   (c =? 42) = false /\ (c =? 58) = false /\ (c =? 40) = false /\ (c =? 10) = false /\ (c =? 44) = false
-  /\ is_open c = false /\ is_close c = false.
+  /\ is_open c = false /\ is_close c = false /\ is_angle c = false.
 Proof.
   intros c H.
   assert (forall k, is_idchar k = false -> (c =? k) = false) as A.
   { intros k Hk. apply N.eqb_neq. intro; subst. rewrite H in Hk. discriminate. }
-  unfold is_open, is_close. rewrite !A by reflexivity. repeat split; reflexivity.
+  unfold is_open, is_close, is_angle. rewrite !A by reflexivity. repeat split; reflexivity.
 Qed.
 
 Lemma span_id_app : forall n rest,
@@ -82,7 +82,7 @@ Qed.
 Lemma walk_app : forall t d u, walk d (t ++ u) = match walk d t with Some d' => walk d' u | None => None end.
 Proof.
   induction t as [|c t IH]; intros d u; [reflexivity|]. cbn [app walk].
-  destruct (c =? 10); [reflexivity|]. destruct (is_open c); [apply IH|].
+  destruct ((c =? 10) || is_angle c); [reflexivity|]. destruct (is_open c); [apply IH|].
   destruct (is_close c); [destruct d; [reflexivity|apply IH]|].
   destruct ((c =? 44) && Nat.eqb d 0); [reflexivity|apply IH].
 Qed.
@@ -90,8 +90,8 @@ Qed.
 Lemma walk_idchars : forall n d, forallb is_idchar n = true -> walk d n = Some d.
 Proof.
   induction n as [|c n IH]; intros d H; [reflexivity|]. cbn [forallb] in H. apply andb_true_iff in H. destruct H as [Hc Hn].
-  destruct (idchar_not_special c Hc) as (_ & _ & _ & H10 & H44 & Ho & Hcl).
-  cbn [walk]. rewrite H10, Ho, Hcl, H44. cbn [andb]. now apply IH.
+  destruct (idchar_not_special c Hc) as (_ & _ & _ & H10 & H44 & Ho & Hcl & Han).
+  cbn [walk]. rewrite H10, Han, Ho, Hcl, H44. cbn [orb]. cbn [andb]. now apply IH.
 Qed.
 
 Lemma split_items_walk : forall t d d' s i l rest,
@@ -102,7 +102,7 @@ Proof.
   induction t as [|c t IH]; intros d d' s i l rest Hw Hs.
   - cbn [walk] in Hw. injection Hw as <-. exact Hs.
   - cbn [walk] in Hw. cbn [app split_items].
-    destruct (c =? 10); [discriminate|].
+    destruct (c =? 10); [discriminate|]. cbn [orb] in Hw. destruct (is_angle c); [discriminate|].
     destruct (is_open c). { now rewrite (IH _ _ _ _ _ _ Hw Hs). }
     destruct (is_close c). { destruct d; [discriminate|]. now rewrite (IH _ _ _ _ _ _ Hw Hs). }
     destruct ((c =? 44) && Nat.eqb d 0); [discriminate|].
@@ -792,3 +792,21 @@ Example parse_text_render_satisfiable :
                       (Some (sa "None"))] in
   stub_ok s = true /\ forallb no_nl (render s) = true.
 Proof. split; reflexivity. Qed.
+
+(* open finding F52: str() of a typing construct over a function-local class contains "<locals>"; such a
+   type string is outside typestr_ok, hence outside fields_ok / the preconditions of stub_valid_partial *)
+Lemma known_F52_excluded : forall t, known_F52 t = true -> typestr_ok t = false.
+Proof.
+  assert (forall t d, known_F52 t = true -> walk d t = None) as A.
+  { induction t as [|c t IH]; intros d H; [discriminate|]. unfold known_F52 in H. cbn [existsb] in H. cbn [walk].
+    destruct (is_angle c) eqn:E; [now rewrite orb_true_r|]. cbn [orb] in H. rewrite orb_false_r.
+    destruct (c =? 10); [reflexivity|]. destruct (is_open c); [now apply IH|].
+    destruct (is_close c); [destruct d; [reflexivity|now apply IH]|].
+    destruct ((c =? 44) && Nat.eqb d 0); [reflexivity|now apply IH]. }
+  intros t H. unfold typestr_ok. now rewrite (A t 0%nat H).
+Qed.
+
+Example typestr_F52_refuted :
+  let a := AField (SRepr (sa "typing.List[app.build.<locals>.Endpoint]")) in
+  exists t, typestr a = Ok t /\ known_F52 t = true /\ aobj_ok a = false.
+Proof. eexists. repeat split; reflexivity. Qed.
